@@ -165,10 +165,11 @@ CLASSES = [
 
 
 def classify(core, small):
-    if core.startswith("valid-workflow-raises:") and p_partial_inner_combiner(small):
+    if p_partial_inner_combiner(small):
         # one root cause (the final splitter of the combined node is stale until prepare_states
-        # runs) surfaces at several places of graph construction / state merging
-        return "valid-workflow-raises:combiner-names-part-of-an-inner-linked-group"
+        # runs) surfaces as exceptions at several places of graph construction / state merging
+        # and, depending on what was constructed before in the process, as wrong values
+        return "combiner-names-part-of-an-inner-linked-group:stale-final-splitter"
     for suffix, pred, name in CLASSES:
         if core.endswith(suffix) and pred(small):
             return f"{core}:{name}"
